@@ -981,10 +981,10 @@ class Data(CorruptFamily):
     name = "data"
 
     def generate(self, rng, tier):
-        n_any, n_valid = (8, 8) if tier == "quick" else (100, 100)
+        n_any, n_valid = (8, 8) if tier == "quick" else (70, 70)
         for k, (desc, valid) in enumerate(base_cases(rng, n_any, n_valid, tiny_p=0.2, rich_every=2)):
             yield {"desc": desc, "env": pick_env(rng, valid, k + 2), "seed": rng.randrange(2 ** 30),
-                   "n": 250 if tier == "quick" else 600}
+                   "n": 250 if tier == "quick" else 400}
 
     def edits(self, case, base):
         import random
